@@ -12,12 +12,30 @@ LEVEL = "model_checking"
 def run(ctx):
     ctx.code()
     from hydrodiy.stat import sutils
-    from hydrodiy.data import signatures
+    from hydrodiy.data import signatures, dutils
     rng = np.random.default_rng(ctx.seed + 66)
     recs = []
     ncases = 150 if ctx.tier == "quick" else 1500
     for t in range(ncases):
-        if t % 2 == 0:
+        if t % 5 == 4:
+            import pandas as pd
+            ny = int(rng.integers(1, 4))
+            idx = pd.date_range("2001-0%d-01" % int(rng.integers(1, 10)), periods=12 * ny, freq="MS")
+            vals = rng.integers(0, 9, size=12 * ny).astype(float)
+            if t % 10 == 9:
+                vals[:] = np.tile(rng.integers(0, 3, size=12), ny)        # many ties
+            se = pd.Series(vals, index=idx)
+            w = int(rng.choice([1, 3, 5]))
+            v0 = se.values.copy()
+            try:
+                month = int(dutils.water_year_end(se, convolve_window=w))
+            except Exception as e:
+                ctx.violation("water_year_end:exception", repr(e), {"values": vals.tolist(), "w": w})
+                continue
+            msum = [int(se[se.index.month == mth].sum()) for mth in range(1, 13)]
+            recs.append({"kind": "wye", "msum": msum, "w": w, "month": month, "argsame": bool(np.array_equal(se.values, v0))})
+            ctx.count({"msum": msum, "w": w}, True)
+        elif t % 2 == 0:
             n = int(rng.integers(4, 10))
             x = rng.integers(0, 5, size=n).astype(float)
             maxlag = int(rng.integers(1, 4))
